@@ -109,7 +109,7 @@ class Weights:
 def declare(rep):
     rep.rule("C14.forces", "every add_force argument (cell routines + configured contact model) has translation weight 0", floor=14)
     rep.rule("C14.kernel", "the kernel's distance and coordinates have weight 0", floor=7)
-    rep.rule("C14.callees", "the geometric helpers whose results enter the forces as opaque values (cell::get_angle_gradient) return, on every return path, vectors of weight 0 when their point arguments are translated together", floor=3)
+    rep.rule("C14.callees", "the geometric helpers whose results enter the forces as opaque values (cell::get_angle_gradient) return, on every return path, vectors of weight 0 when their point arguments are translated together", floor=1)
     rep.rule("C14.axis-moments", "every term accumulated into the second moments that give the division axis (cell::get_cell_longest_axis) has weight 0, and the mean subtracted is the mean of the same points", floor=6)
     rep.rule("C14.displacements", "integrator displacements have weight 0; points written by pos_.reset have weight 1", floor=1)
     rep.rule("C14.new-nodes", "the node added by split_edge / merge_edge has weight 1", floor=2)
